@@ -10,8 +10,9 @@ from harness import cxx_run as X
 class C11(ProgProp):
     id = 'C11'
     want_mc = True
+    wrapper_stream = (150, 4000)
     theorems = ['C11.minv_step', 'C11.mutex_reachable', 'C11.selection_access_under_lock', 'C11.acquire_exclusive',
-                'C11.raii', 'C11.winv_step', 'C11.no_deadlock', 'C11.holder_witness']
+                'C11.raii', 'C11.winv_step', 'C11.no_deadlock', 'C11.holder_witness', 'C11.wrapper_order']
     partial = [('C11.holder', 'a granted client receives the out-events until it releases: false of the current code under '
                 'the schedule in which another client\'s delayed Deselect runs after the new holder\'s Select (finding D-9; '
                 'negation proved on a 19-step schedule by decide, the specified Deselect is shown to deliver correctly on '
@@ -23,7 +24,11 @@ class C11(ProgProp):
                   'claim/use/release cycles against an arbiter component while the dispatcher thread raises out-events; '
                   'random schedules from the OS with seeded pauses; g++ runs checked against the holder specification on '
                   'the log, clang++ ThreadSanitizer runs checked for data races; timeouts count as deadlock; '
-                  'non-trivial = run with >=1 granted claim and >=1 delivered out-event; distinct = distinct (program, seed)')
+                  'non-trivial = run with >=1 granted claim and >=1 delivered out-event; distinct = distinct (program, seed); '
+                  'plus a text-level stream over generated multi-client shells (release events with a reply included, which '
+                  'cannot be compiled on the current tree: K-5): full-text correspondence with the model and the '
+                  'step-order clauses of the per-client wrappers (forward to the component first, then Select on a '
+                  'granting reply / Deselect) that the interleaving model is built on')
     assumptions = ProgProp.assumptions + [
         'the OS scheduler chooses the interleavings (seeded pauses only bias it): the runs sample schedules, the '
         'theorems cover all of them for the model']
@@ -97,9 +102,10 @@ class C11(ProgProp):
                 p.cleanup()
         # the proved witness schedule of the model is replayed through the driver-independent model only;
         # the recorded race is additionally searched for on real threads above (known_hits)
-        return {'failures': failures, 'disagreements': disagreements, 'known_hits': known_hits, 'evaluations': nruns,
+        return self.add_wrapper_stream(ctx, {
+                'failures': failures, 'disagreements': disagreements, 'known_hits': known_hits, 'evaluations': nruns,
                 'shapes': shapes, 'coverage': {'programs': len(cases), 'threaded_runs': nruns,
-                                                'tsan_programs': len(progs_t), 'out_events_delivered': delivered_total}}
+                                                'tsan_programs': len(progs_t), 'out_events_delivered': delivered_total}})
 
     @staticmethod
     def check_log(tr, rc, err, grant, kind):
